@@ -856,7 +856,12 @@ func ruleL5(c *Ctx) *RuleResult {
 					}
 					continue
 				}
-				okAll = false // a computed result: not a pure gate
+				// a computed result (`return msn < s.nextSegmentID`): it can only be true behind the gate if the
+				// return itself lies behind it
+				nTrue++
+				if !onlyIf(fn, ret, conds, true) {
+					okAll = false
+				}
 			}
 			if okAll && nTrue > 0 {
 				gateFns[fn] = true
